@@ -501,3 +501,34 @@ def fast_subdir(name):
     p = os.path.join(_FAST, name)
     os.makedirs(p, exist_ok=True)
     return p
+
+
+# ---------------------------------------------------------------------------
+# Apalache: inductive invariants (unbounded safety of the small Layer A machines)
+# ---------------------------------------------------------------------------
+
+def apalache_inductive(module, init, nxt, indinit, inv, timeout=600):
+    """Discharge  init => inv  and  inv /\\ next => inv'  with apalache-mc. Returns dict(obligations, discharged, wall)."""
+    wd = subdir("apa-" + module)
+    for d in spec_dirs():
+        for f in os.listdir(d):
+            if f.endswith(".tla"):
+                shutil.copyfile(os.path.join(d, f), os.path.join(wd, f))
+    t0 = time.time()
+    done = 0
+    for i0, length in ((init, 0), (indinit, 1)):
+        cmd = ["apalache-mc", "check", "--init=" + i0, "--next=" + nxt, "--inv=" + inv, "--length=%d" % length,
+               "--out-dir=" + os.path.join(wd, "out"), module + ".tla"]
+        try:
+            p = subprocess.run(cmd, cwd=wd, stdout=subprocess.PIPE, stderr=subprocess.STDOUT, timeout=timeout, text=True,
+                               env=dict(os.environ, JVM_ARGS="-Xmx2g"))
+        except (subprocess.TimeoutExpired, FileNotFoundError) as ex:
+            raise MachineryError("apalache failed on %s: %r" % (module, ex))
+        if "The outcome is: NoError" in p.stdout:
+            done += 1
+        elif "violat" in p.stdout.lower() or "The outcome is: Error" in p.stdout:
+            raise MachineryError("apalache: %s is not inductive for %s (obligation %s)" % (inv, module, i0))
+        else:
+            raise MachineryError("apalache failed on %s:\n%s" % (module, "\n".join(p.stdout.splitlines()[-15:])))
+    return {"tool": "apalache-mc", "module": module, "invariant": inv, "obligations": 2, "discharged": done,
+            "wall_s": round(time.time() - t0, 1)}
